@@ -8,8 +8,12 @@ import AdaptiveProofs.Lemmas.L1DFinal
 
 Property theorems only.  Model: `askPoints` / `askLoop` / `linspace` of `AdaptiveModel/L1D.lean`
 (`_ask_points_without_adding`).  "Reachable state" = `run … (init lo hi …) ops` for ANY op list that is
-valid in the sense of the property's quantifier (`ValidOps`: points inside the bounds, batched tells only
-once both end points are known or pending); every loss function, every `nn`, every request size `n`.
+valid in the sense of the property's quantifier (`ValidOps`: points inside the bounds, no empty batch); every
+loss function, every `nn`, every request size `n`.  The former proviso "batched tells only once both end points
+are known or pending" was needed before the repair `fix: Learner1D.tell_many batch path shrank the x-scale to the
+range of the points` (to keep `lossScale = scaleX = hi - lo`, which C02.a/d/g/h rest on) and is gone now: the
+theorems cover every history whose points lie inside the bounds (instance with a forced batch of interior
+points only: `Examples/L1D.lean`, `opsNoEnds`).
 -/
 set_option linter.unusedSectionVars false
 namespace L1D
